@@ -374,7 +374,8 @@ Lemma gen_codesizes_spec freq256 :
     ((2 <= n)%nat -> forall c, In c cs -> 1 <= c).
 Proof.
   intros (Hnn & Hsum & Hcnt) a syms n. fold a in Hnn, Hsum, Hcnt.
-  unfold gen_codesizes. fold a. rewrite nz_scan_pseudo.
+  unfold gen_codesizes. change PSEUDO_SYM with 256%nat. change PSEUDO_COUNT with 1.
+  fold a. rewrite nz_scan_pseudo.
   set (nzs := nz_scan a 0 ++ [(Z.of_nat (length a), 1)]).
   assert (Ln : length nzs = n).
   { unfold nzs, n, syms. rewrite app_length, map_length. cbn. lia. }
